@@ -33,7 +33,7 @@ fn observe_view<V: ImageView<Pixel = U16>>(v: &V, limit: u32, out: &mut Map<Stri
     out.insert("vh".into(), json!(limbs(h as u64)));
     if w > limit || h > limit {
         // do not touch the pixels of a view that claims to be larger than its parent
-        out.insert("rows".into(), Value::Null);
+        out.insert("rowskip".into(), json!(1));
         return;
     }
     let mut rows = vec![];
@@ -106,7 +106,7 @@ pub fn view_ctor(case: &Value, out: &mut Map<String, Value>) {
                         let v = c.image_view::<U16>().unwrap();
                         observe_view(&v, limit, &mut o);
                     } else {
-                        o.insert("rows".into(), Value::Null);
+                        o.insert("rowskip".into(), json!(1));
                     }
                 }
             }
@@ -124,7 +124,7 @@ pub fn view_ctor(case: &Value, out: &mut Map<String, Value>) {
                         let v = c.image_view::<U16>().unwrap();
                         observe_view(&v, limit, &mut o);
                     } else {
-                        o.insert("rows".into(), Value::Null);
+                        o.insert("rowskip".into(), json!(1));
                     }
                 }
             }
@@ -271,7 +271,7 @@ fn split_leaf<V: ImageView<Pixel = U16>>(v: &V, a: &SplitArgs) -> Value {
     macro_rules! go {
         ($res:expr) => {
             match $res {
-                None => Value::Null,
+                None => json!("none"),
                 Some(parts) => json!(parts.iter().map(|p| view_tags(p)).collect::<Vec<Value>>()),
             }
         };
@@ -287,7 +287,7 @@ fn split_ro<V: ImageView<Pixel = U16>>(v: &V, a: &SplitArgs, second: Option<(&Sp
     macro_rules! go {
         ($res:expr) => {
             match $res {
-                None => Value::Null,
+                None => json!("none"),
                 Some(parts) => {
                     let mut arr = vec![];
                     for (i, p) in parts.iter().enumerate() {
@@ -324,7 +324,7 @@ fn split_mut<V: ImageViewMut<Pixel = U16>>(v: &mut V, a: &SplitArgs) -> Value {
     macro_rules! go {
         ($res:expr) => {
             match $res {
-                None => Value::Null,
+                None => json!("none"),
                 Some(mut parts) => {
                     let mut arr = vec![];
                     for (i, p) in parts.iter_mut().enumerate() {
@@ -351,7 +351,7 @@ fn split_mut2<V: ImageViewMut<Pixel = U16>>(v: &mut V, a: &SplitArgs, a2: &Split
             macro_rules! go2 {
                 ($res:expr) => {
                     match $res {
-                        None => Value::Null,
+                        None => json!("none"),
                         Some(mut parts) => {
                             let mut arr = vec![];
                             for (j, q) in parts.iter_mut().enumerate() {
@@ -373,14 +373,14 @@ fn split_mut2<V: ImageViewMut<Pixel = U16>>(v: &mut V, a: &SplitArgs, a2: &Split
     macro_rules! go {
         ($res:expr) => {
             match $res {
-                None => Value::Null,
+                None => json!("none"),
                 Some(mut parts) => {
                     let mut arr = vec![];
                     for (i, p) in parts.iter_mut().enumerate() {
                         let mut o = view_tags(p);
                         if which == i {
                             let sub = inner!(p);
-                            if sub.is_null() {
+                            if sub == json!("none") {
                                 fill(p, 50000 + i as u16);
                             }
                             o["sub"] = sub;
